@@ -124,4 +124,12 @@ def CASES(tier, seed):
     if slow != 1:
         for c in cases:
             c['opts'] = dict(c['opts'], max_wall_s=c['opts']['max_wall_s'] * slow, hard_timeout_s=c['opts']['hard_timeout_s'] * slow)
+    # MPS- and MPO-level operands (tensors stored inside an MPS / MPO, legs shared between them): case families written
+    # next to the C07-C09 / C11 factories; the case dict names the module its function and setup_symbolic live in
+    from catalogue import mps_level_aliasing, mpo_level_aliasing
+    for m in (mps_level_aliasing, mpo_level_aliasing):
+        for c in m.CASES(tier, seed):
+            c = dict(c)
+            c['module'] = m.__name__
+            cases.append(c)
     return cases
